@@ -29,7 +29,10 @@ def one(d):
         if rc != 0:
             return sid, "PATCH-DOES-NOT-APPLY", None
         env = dict(os.environ, DYCE_REPO=wt, VERIF_SCRATCH=scratch)
-        rcc, oc = sh(f"./check {pid} --tier quick", cwd=str(VERIF), env=env)
+        try:
+            rcc, oc = sh(f"./check {pid} --tier quick", cwd=str(VERIF), env=env, timeout=2400)
+        except subprocess.TimeoutExpired:
+            return sid, "CHECK-TIMED-OUT", None
         lines = [l for l in oc.splitlines() if l.startswith("VIOLATION")]
         kind = None
         for l in lines[:1]:
